@@ -160,10 +160,10 @@ def layout_predicate(ctx, rule):
         if len(sets) > 1:
             for (a, m, n) in rp[dim]:
                 if frozenset(a) != max(sets, key=lambda s: sum(1 for x in rp[dim] if frozenset(x[0]) == s)):
-                    ctx.fail(rule, m, n.test, 'reader method %s selects a unit-ordered loader under %s while its siblings '
+                    ctx.fail(rule, m, getattr(n, 'test', n), 'reader method %s selects a unit-ordered loader under %s while its siblings '
                              'use %s' % (m.name, sorted(a), [sorted(s) for s in sets]))
         for (a, m, n) in rp[dim]:
-            ctx.ok(rule, m, n.test, 'reader unit-order predicate %s' % sorted(a)) if len(sets) == 1 else None
+            ctx.ok(rule, m, getattr(n, 'test', n), 'reader unit-order predicate %s' % sorted(a)) if len(sets) == 1 else None
     for (m, call, t) in rp.get('unguarded', []):
         ctx.fail(rule, m, enclosing_stmt(call), 'reader method %s calls the specialised loader %s without a test on the blockshape: '
                  'its address arithmetic assumes one layout and is used for every layout' % (m.name, t.name), line=call.lineno)
@@ -179,12 +179,12 @@ def layout_predicate(ctx, rule):
             ctx.fail(rule, pr.func, pr.func.name, 'producer has no layout switch on blockshape: whole-stream vs per-block '
                      'emission cannot follow the reader')
             continue
-        wa = PR.blockshape_atoms(pr.switch.test)
+        wa = pr.switch_atoms
         if want[dim] <= wa:
-            ctx.ok(rule, pr.func, pr.switch.test, 'whole-stream emission under %s implies the reader predicate %s' % (
+            ctx.ok(rule, pr.func, getattr(pr.switch, 'test', pr.switch), 'whole-stream emission under %s implies the reader predicate %s' % (
                 sorted(wa), sorted(want[dim])))
         else:
-            ctx.fail(rule, pr.func, pr.switch.test, 'the producer emits one unit-ordered stream per %s whenever %s, but the '
+            ctx.fail(rule, pr.func, getattr(pr.switch, 'test', pr.switch), 'the producer emits one unit-ordered stream per %s whenever %s, but the '
                      'reader addresses the file unit-ordered only when %s: for blockshapes in between the file is written '
                      'unit-ordered and read block-ordered' % ('trace group' if dim == '2d' else 'plane set',
                                                              ' and '.join('blockshape[%d] == %s' % x for x in sorted(wa)),
